@@ -2,7 +2,7 @@
     conclusions say something (a bond really changes, a charge really moves, the additive branch is really taken, no
     ITS is really produced).  Intermediate values are top-level Definitions (no destructuring lets in statements). *)
 From Coq Require Import List NArith ZArith Bool Lia.
-From SK Require Import lib.Tok lib.LGraph model.C03_Model proof.C03_Proof proof.C03_Glue proof.C03_Backward proof.C03_ExplicitH proof.C03_ExplicitShape proof.C03_ExplicitTotal proof.C03_Expand proof.C03_Default proof.C03_Iso proof.C03_Skeleton.
+From SK Require Import lib.Tok lib.LGraph model.C03_Model proof.C03_Proof proof.C03_Glue proof.C03_Backward proof.C03_ExplicitH proof.C03_ExplicitShape proof.C03_ExplicitTotal proof.C03_Expand proof.C03_Default proof.C03_Iso proof.C03_Skeleton proof.C03_StripCounts.
 Import ListNotations.
 Local Open Scope Z_scope.
 
@@ -205,4 +205,12 @@ Example ex_default_changed_bonds :
   glue ex_host_h ex_rc_s ex_m_s = Some ex_T_s /\ changed_bonds ex_T_s = [] /\
   option_map (fun a => (a_hc (iG a), a_hc (iH a))) (label ex_T_s 2%N) = Some (1, 0) /\
   option_map (fun a => (a_hc (iG a), a_hc (iH a))) (label ex_T_s 3%N) = Some (3, 4).
+Proof. vm_compute. repeat split; reflexivity. Qed.
+
+(** the counts on the same template: the left side keeps O (hcount 1 = its one bond to the stripped H 2) and N (0) *)
+Definition ex_l_s : molg := match synrule ex_tpl_x true with Some t => snd (fst t) | None => LG [] [] end.
+Example ex_synrule_default_counts :
+  map (fun p => (fst p, m_hc (snd p))) (gnodes ex_l_s) = [(1%N, 1); (3%N, 0)] /\ gedges ex_l_s = [] /\
+  sum_cnt (gedges (fst (its_decompose (standardize_hydrogen ex_tpl_x)))) [2%N] 1%N = 1 /\
+  sum_cnt (gedges (fst (its_decompose (standardize_hydrogen ex_tpl_x)))) [2%N] 3%N = 0.
 Proof. vm_compute. repeat split; reflexivity. Qed.
